@@ -7,6 +7,10 @@ try:
 except ImportError:
     pass
 with vlib.Lock():
+    # the Extraction commands of Extract/X*.v write into build/x/<name>/: from a
+    # clean build/ these directories must exist before the full make
+    for f in sorted(glob.glob(os.path.join(vlib.COQ, 'Extract', 'X*.v'))):
+        os.makedirs(os.path.join(vlib.BUILD, 'x', os.path.basename(f)[1:-2]), exist_ok=True)
     ok, log = vlib.coq_make([], timeout=3000)
     if not ok:
         print(log[-6000:]); sys.exit(1)
